@@ -30,6 +30,10 @@ fn main() {
     ctx.run_slice(Slice::new("identity/twist/singleton[lists<=3 over 2 labels ^2]", no * no, |i, loc| check_constructors(&objs[(i / no) as usize], &objs[(i % no) as usize], loc)));
     let cs = Spec { n_min: 0, n_max: 3, e_min: 0, e_max: 0, ks: 0, kt: 0, lw: 2, lx: 1, a: 3, b: 3, q: 0 }.universe();
     ctx.run_slice(Slice::new("spider[cospans <=3 nodes, legs <=3]", cs.count(), |i, loc| check_spider(&cs.get_open(i), loc)));
+    // three hyperedges of mixed arities (0, 1, 2) over one or two nodes
+    let s3 = Spec { n_min: 1, n_max: 2, e_min: 3, e_max: 3, ks: 2, kt: 1, lw: 1, lx: 1, a: 1, b: 0, q: 0 };
+    let u3 = s3.universe();
+    ctx.run_slice(Slice::new(format!("round-trips-three-hyperedges[{}]", s3.name()), u3.count(), |i, loc| check_roundtrip_strict(&u3.get_open(i), loc)));
     // larger inputs: round trips on structured diagrams, lax composition along long boundaries (structured gluing pairs)
     let st: Vec<_> = ohmc::props::structured::shapes(4).into_iter().map(|x| x.1).collect();
     ctx.run_slice(Slice::new(format!("round-trips-structured[{} diagrams]", st.len()), st.len() as u64, |i, loc| check_roundtrip_strict(&st[i as usize], loc)));
